@@ -156,4 +156,16 @@ let () =
       bump ("cdav_" ^ kind); note_nontrivial (show (L [A kind; im; inm]));
       let ok = cdav_agree (o im) (o inm) got && (match status with A "201" | A "204" -> true | _ -> false) in
       verdict ~agree:ok ~spec:ok ~kf:"-" ~detail:"the backend must receive both header values byte for byte"
+    | [L [A "tworoots"; L [A "tree"; tree]; L (A "reqs" :: reqs); served; diff; wa; wb]] ->
+      (* the same subtree served from two places: the answers (all bytes) and the subtrees
+         afterwards must be equal (C17_history_independent_of_root); no model is run here,
+         the theorem says what the model does *)
+      ignore (node_of tree);
+      let d = int_ diff in
+      bump (Printf.sprintf "tworoots_requests_%d" (min 30 (List.length reqs)));
+      bump (Printf.sprintf "tworoots_served_%s" (if int_ served = List.length reqs then "all" else "until_root_gone"));
+      note_nontrivial (show tree);
+      let ok = d < 0 in
+      verdict ~agree:ok ~spec:ok ~kf:"-"
+        ~detail:(if ok then "" else Printf.sprintf "request %d answered differently: from the first place %S, from the second %S" d (string_of_chars (str wa)) (string_of_chars (str wb)))
     | _ -> raise (Parse_error "line"))
